@@ -184,6 +184,7 @@ func runC04(t *testing.T, sc *world.Scenario) *check.Result {
 	steady := make([]int, 3)
 	haveSteady := make([]bool, 3)
 	maxSettle := make([]int, 3)
+	nByAlgo := make([]int, 3)
 	observedC := -1
 	for ai, algo := range algos {
 		band := 0
@@ -195,7 +196,19 @@ func runC04(t *testing.T, sc *world.Scenario) *check.Result {
 		if ai == 1 {
 			n += 2 * (255 / m) // a rate-limited loop needs up to 255/m cycles to cross the range
 		}
-		for _, s0 := range starts {
+		algoStarts := starts
+		if ai == 2 {
+			// the PID loop resolves its rounding dead-band through the integral term, i.e. on a time
+			// scale of seconds, not cycles: give it 150 virtual seconds (fewer starting requests instead)
+			if byTime := int(150 * time.Second / sc.Tick.D()); byTime > n {
+				n = min(byTime, 3000)
+			}
+			if len(algoStarts) > 8 {
+				algoStarts = algoStarts[:8]
+			}
+		}
+		nByAlgo[ai] = n
+		for _, s0 := range algoStarts {
 			seq := c04Exec(t, sc, algo, s0, nil, 0, n, res)
 			if res.Harness != "" {
 				return res
@@ -317,13 +330,27 @@ func runC04(t *testing.T, sc *world.Scenario) *check.Result {
 		if !haveSteady[ai] {
 			continue
 		}
+		// the calibration set also contains executions with a SHORT prior history (bounded memory by
+		// construction): a few cycles at another curve value, then the constant one
+		for k := 0; k < 3; k++ {
+			pre := time.Duration(r.Range(5, 30)) * sc.Tick.D()
+			h := []world.TempStep{{T: 0, V: tempForCurve(kernel.Pick(r, 0, 255, r.Range(0, 255)))}}
+			seq := c04Exec(t, sc, algo, r.Range(0, 255), h, pre, nByAlgo[ai], res)
+			if res.Harness != "" {
+				return res
+			}
+			if idx, _, ok := settle(seq.req, band); ok && seq.curve == observedC && idx > maxSettle[ai] {
+				maxSettle[ai] = idx
+			}
+			res.Probe("calibration-executions(short history)")
+		}
 		bound := 5*maxSettle[ai] + 50
 		sig := fmt.Sprintf("algo=%s range=%s", names[ai], rng)
 		for _, hc := range cases {
 			if ai != 2 && hc.name != "trajectory" && r.Bool(0.5) {
 				continue // the stateless algorithms get fewer long-idle executions
 			}
-			seq := c04Exec(t, sc, algo, r.Range(0, 255), hc.hist, hc.end, bound+200, res)
+			seq := c04Exec(t, sc, algo, r.Range(0, 255), hc.hist, hc.end, max(bound+200, nByAlgo[ai]), res)
 			if res.Harness != "" {
 				return res
 			}
